@@ -267,6 +267,13 @@ func genC08Doc(t *rapid.T) (data []byte, ext string, kind string) {
 			clos = "}"
 		}
 		return []byte(strings.Repeat(open, n) + "1" + strings.Repeat(clos, n)), ext, "deep-nesting"
+	case k == 5:
+		// a document from the schema-validation domain (C17): type / bound / annotation mutants of a valid Spec
+		c := genC17(t)
+		if ext == ".json" {
+			return gen.EncodeJSON(c.Doc), ext, "schema-mutant"
+		}
+		return gen.EncodeYAML(c.Doc), ext, "schema-mutant"
 	case k == 4:
 		// alias expansion
 		var sb strings.Builder
